@@ -353,6 +353,49 @@ fn run_words(out: &mut CaseOut, rng: &mut Rng, words: &[String], widths: &[usize
             return;
         }
     }
+    // variant 5: the paragraph follows a block that renders to nothing, and is
+    // built from several text nodes / inline elements
+    {
+        let w = *rng.pick(widths);
+        let lead = *rng.pick(&["<p> </p>", "<h2></h2>", "<div><p> </p></div>", "<p><br></p>", "<blockquote></blockquote>", "<ul></ul>"]);
+        let split = split_markup(rng, words);
+        let s_doc = vec![El::with("p", split).node()];
+        let mut bytes = lead.as_bytes().to_vec();
+        bytes.extend_from_slice(&ast::serialize(&s_doc, &mut Fmt::canonical()));
+        let cfg = Cfg::rich();
+        let g = render_lines(&cfg, &bytes, w).map(|ls| {
+            let mut v: Vec<String> = ls.iter().map(line_text).collect();
+            // the empty leading block may contribute empty lines before the paragraph
+            while v.first().map(|l| l.is_empty()).unwrap_or(false) {
+                v.remove(0);
+            }
+            v
+        });
+        out.evals += 1;
+        // (an empty heading still needs room for its "## " prefix)
+        if !compare(out, "after-empty-block", words, w, w >= 4, &g, &bytes, w, &cfg) {
+            return;
+        }
+    }
+    // variant 6: max_wrap_width on a paragraph that starts with a fragment marker
+    {
+        let w = *rng.pick(widths);
+        let m = rng.range(1, w + 2);
+        let mut e = El::with("p", text_nodes.clone());
+        match rng.below(3) {
+            0 => e.attrs.push(("id".into(), "frag".into())),
+            1 => e.children.insert(0, El::new("a").attr("name", "anchor").node()),
+            _ => e.children.insert(0, El::new("span").attr("id", "s").node()),
+        }
+        let bytes = ast::serialize(&[e.node()], &mut Fmt::canonical());
+        let mut cfg = Cfg::plain_nd();
+        cfg.max_wrap = Some(m);
+        let g = lines_of(render_string(&cfg, &bytes, w));
+        out.evals += 1;
+        if !compare(out, "max-wrap-width-with-id", words, m.min(w), true, &g, &bytes, w, &cfg) {
+            return;
+        }
+    }
     // variant 4: inside one prefixed block
     {
         let w = *rng.pick(widths);
